@@ -1205,23 +1205,29 @@ TS_SETS = {   # name of the TLA+ definition -> (set_data of the gateware, first 
     "TS1InvWords": ("INVERTED_TS1_SET_DATA", 0b1111, False),
     "TS2Words": ("TS2_SET_DATA", 0b1111, True),
     "TSEQWords": ("TSEQ_SET_DATA", 0b0001, False),
+    "TinyWords": ((0xBCBCBCBC, 0x45450000), 0b1111, True),     # two-word set (the constructors take any set_data)
 }
 
 
 class TsBench:
-    """A real TSEmitter and a real TSBurstDetector built from the same ordered set."""
+    """A real TSEmitter and a real TSBurstDetector built from the same ordered set (set_data, first_word_ctrl,
+    burst lengths and include_config are constructor parameters of both)."""
 
-    def __init__(self, set_name, emit_n, det_n):
+    def __init__(self, set_name, emit_n, det_n, ctrl=None, cfg=None):
         use_repo()
-        from amaranth import Module, Elaboratable
+        from amaranth import Module, Elaboratable, ClockDomain
         from luna.gateware.usb.usb3.link import ordered_sets as osets
-        data_name, ctrl, has_cfg = TS_SETS[set_name]
-        data = getattr(osets, data_name)
+        data_name, dctrl, dcfg = TS_SETS[set_name]
+        data = getattr(osets, data_name) if isinstance(data_name, str) else list(data_name)
+        ctrl = dctrl if ctrl is None else ctrl
+        has_cfg = dcfg if cfg is None else cfg
+        self.ctrl = ctrl
         self.has_cfg = has_cfg
         self.set_words = [word(d, ctrl if k == 0 else 0) for k, d in enumerate(data)]
 
         class Top(Elaboratable):
             def __init__(self):
+                self.cd = ClockDomain("ss")
                 self.em = osets.TSEmitter(set_data=data, first_word_ctrl=ctrl, transmit_burst_length=emit_n,
                                           include_config=has_cfg)
                 self.det = osets.TSBurstDetector(set_data=data, first_word_ctrl=ctrl, sets_in_burst=det_n,
@@ -1229,6 +1235,7 @@ class TsBench:
 
             def elaborate(self, platform):
                 m = Module()
+                m.domains.ss = self.cd
                 m.submodules.em = self.em
                 m.submodules.det = self.det
                 return m
@@ -1242,6 +1249,7 @@ class TsBench:
 
         async def bench(ctx):
             for st in stim:
+                ctx.set(self.top.cd.rst, int(st.get("rst", False)))
                 ctx.set(em.start, int(st["start"]))
                 ctx.set(em.source.ready, int(st["rdy"]))
                 if self.has_cfg:
@@ -1255,7 +1263,7 @@ class TsBench:
                     iw = st.get("iw", NOWORD)
                 set_word(ctx, det.sink, iw)
                 r = {"start": bool(st["start"]), "rdy": bool(st["rdy"]), "hr": bool(st["hr"]), "lb": bool(st["lb"]),
-                     "ns": bool(st["ns"]), "ow": ow, "done": bool(ctx.get(em.done)), "iw": iw,
+                     "ns": bool(st["ns"]), "ow": ow, "done": bool(ctx.get(em.done)), "iw": iw, "rst": bool(st.get("rst", False)),
                      "det": bool(ctx.get(det.detected)),
                      "dhr": bool(ctx.get(det.hot_reset)) if self.has_cfg else False,
                      "dlb": bool(ctx.get(det.loopback_requested)) if self.has_cfg else False,
